@@ -163,16 +163,16 @@ pub open spec fn unresolvable(e: ResolveSerialized, last: Result<(), BridgeError
 }
 
 impl ResolveRegistry {
-//@extract id=ResolveRegistry::register file=crux_core/src/bridge/registry.rs within="impl ResolveRegistry" item="fn register" props=C09+C12+C13
+//@extract id=ResolveRegistry::register file=crux_core/src/bridge/registry.rs within="impl ResolveRegistry" item="fn register" props=C02+C09+C12+C13
 //@expect pub fn register<Eff>(&self, effect: Eff) -> Request<Eff::Ffi> where Eff: Effect,
 //@sig fn register<Eff>(&mut self, effect: Eff) -> (r: Request<Eff::Ffi>) where Eff: Effect,
 //@contract
         ensures
-            !old(self)@.dom().contains(r.id.0 as usize), // [C09/register/id-distinct-from-every-outstanding-id]
-            kept(old(self)@, final(self)@), // [C09+C12+C13/register/outstanding-entries-untouched]
+            !old(self)@.dom().contains(r.id.0 as usize), // [C02+C09/register/id-distinct-from-every-outstanding-id]
+            kept(old(self)@, final(self)@), // [C02+C09+C12+C13/register/outstanding-entries-untouched]
             forall|k: usize| #![auto] final(self)@.dom().contains(k) ==> k == r.id.0 as usize || old(self)@.dom().contains(k), // [C13/register/at-most-one-entry-added]
             r.effect == effect.serialize_spec().0, // [C09/register/payload-is-what-serialize-returned]
-            final(self)@.dom().contains(r.id.0 as usize) ==> final(self)@[r.id.0 as usize] == effect.serialize_spec().1, // [C09/register/entry-is-the-effects-own-continuation]
+            final(self)@.dom().contains(r.id.0 as usize) ==> final(self)@[r.id.0 as usize] == effect.serialize_spec().1, // [C02+C09/register/entry-is-the-effects-own-continuation]
             kind(effect.serialize_spec().1) != 0 ==> final(self)@.dom().contains(r.id.0 as usize), // [C09/register/resolvable-request-is-remembered]
             kind(effect.serialize_spec().1) == 0 ==> final(self)@ == old(self)@, // [C13/register/request-that-can-never-be-resolved-is-not-remembered]
 //@rule X4.lock-erasure * s/self\s*\.0\s*\.lock\(\)\s*\.expect\("[^"]*"\)/(&mut self.0.inner)/
@@ -180,7 +180,7 @@ impl ResolveRegistry {
 //@rule X8.closure-wildcard * s/\|_,/|_k,/
 //@end
 
-//@extract id=ResolveRegistry::resume file=crux_core/src/bridge/registry.rs within="impl ResolveRegistry" item="fn resume" props=C02+C09+C12+C13
+//@extract id=ResolveRegistry::resume file=crux_core/src/bridge/registry.rs within="impl ResolveRegistry" item="fn resume" props=C02+C06+C09+C12+C13
 //@expect pub fn resume( &self, id: EffectId, body: &mut dyn erased_serde::Deserializer, ) -> Result<(), BridgeError>
 //@sig fn resume(&mut self, id: EffectId, body: &mut ErasedDeserializer) -> (r: Result<(), BridgeError>)
 //@contract
@@ -194,6 +194,7 @@ impl ResolveRegistry {
             kind(resolve_next(old(self)@[id.0 as usize], *old(body))) == 0 ==> !final(self)@.dom().contains(id.0 as usize), // [C13/resume/consumed-or-never-entry-is-forgotten]
             r == Err::<(), BridgeError>(BridgeError::ProcessResponse(ResolveError::FinishedMany)) ==> !final(self)@.dom().contains(id.0 as usize), // [C13/resume/ended-stream-is-forgotten]
             !unresolvable(resolve_next(old(self)@[id.0 as usize], *old(body)), r) ==> final(self)@.dom().contains(id.0 as usize), // [C09+C13/resume/live-subscription-not-torn-down]
+            kind(old(self)@[id.0 as usize]) == 2 && r == Err::<(), BridgeError>(BridgeError::ProcessResponse(ResolveError::FinishedMany)) ==> final(self)@.dom().contains(id.0 as usize), // [C06/resume/a-stream-whose-consumer-was-cancelled-stays-answerable-the-next-late-response-must-not-hit-the-unknown-id-panic]
 //@rule X4.lock-erasure * s/self\s*\.0\s*\.lock\(\)\s*\.expect\("[^"]*"\)/(&mut self.0.inner)/
 //@rule X8.closure-wildcard * s/\|_\|/|_e|/
 //@rule X8.closure-wildcard * s/\|_,/|_k,/
